@@ -162,6 +162,7 @@ def run_scenario(scn, ch):
     env.owned_ever = set()  # resources a lock step has granted to the operation so far
     env.not_yet = None  # resources not yet granted when the FIRST external ending happened
     env.lock_steps = {"acquire": 0, "release": 0}
+    env.inflight = None  # lock granted inside the current lock step, not yet booked by the controller
     env.clock = clock = vclock.VClock()
     vclock.use(clock)
     mode = scn["mode"]
@@ -177,10 +178,10 @@ def run_scenario(scn, ch):
     def bad(key, what):
         env.viols.append((key, what))
 
-    def check_ended(where, text=None, inflight=None):
+    def check_ended(where, text=None):
         """an ending call has returned: nothing owned, not active"""
         text = text or where
-        owned = sorted(r for r, l in ctl.resources.items() if l.owner == OP and r != inflight)
+        owned = sorted(r for r, l in ctl.resources.items() if l.owner == OP and r != env.inflight)
         if owned:
             multi = any(req.count(r) > 1 for r in owned)
             bad(f"leak:{'reentrant-request' if multi else 'single-request'}:{where}",
@@ -189,9 +190,10 @@ def run_scenario(scn, ch):
         if OP in ctl.active_operations:
             bad(f"still-active:{where}", f"after {text} returned '{OP}' is still in active_operations")
 
-    def external(i, where, inflight=None):
+    def external(i, where):
         name = EXT[i]
         env.ext.append(name)
+        was_active = OP in ctl.active_operations
         if env.not_yet is None:
             # the statement lets a driver stop at the ending (these stay untouched) as well as carry
             # on, obtain them and release them at the end
@@ -203,7 +205,10 @@ def run_scenario(scn, ch):
             (cell or system).run_maintenance()
         else:
             (cell or system).shutdown()
-        check_ended(name, f"{name} (issued at {where})", inflight)
+        if was_active:
+            check_ended(name, f"{name} (issued at {where})")
+        # else: it had been ended before and its driver is still winding down (possible only from inside
+        # a lock step): this call is not the operation's ending; judged when the driver call returns
 
     def probe(kind, lock, owner, do):
         """every lock step the library issues for the operation; in the one-shot modes a choice point"""
@@ -222,8 +227,14 @@ def run_scenario(scn, ch):
         if c > len(EXT):
             # the lock has changed, the controller has not booked it yet: a freshly granted lock is
             # unknown to the ending and is judged when the driver call returns
-            external(c - 1 - len(EXT), f"inside {kind} step #{k} on {rid}, after the lock answered {got}",
-                     inflight=rid if fresh else None)
+            # (neither to any ending nested in it) and is judged when the driver call returns
+            outer = env.inflight
+            if fresh:
+                env.inflight = rid
+            try:
+                external(c - 1 - len(EXT), f"inside {kind} step #{k} on {rid}, after the lock answered {got}")
+            finally:
+                env.inflight = outer
         return got
 
     for lock in ctl.resources.values():
@@ -683,7 +694,8 @@ def run(ctx):
         distinct_nontrivial=n_outcomes,
         rule="engine B: every scenario (mode x request list x priority x validate x holder configuration of the requested "
              f"resources) x every answer sequence with <= {max_dev} non-default answers at the checkpoint / work / validate "
-             "/ between-steps choice points, each executed on a fresh real system; distinct_nontrivial = distinct "
+             "/ between-steps / lock-step (one-shot modes: every try_acquire and release issued for the operation x "
+             "{ending right before, ending right after} x {kill, watchdog, shutdown}) choice points, each executed on a fresh real system; distinct_nontrivial = distinct "
              "(mode, exit path, success, work runs, validate runs, final lock table) outcomes. engine A: BFS to depth "
              f"{depth} of further operations from every distinct (final system state, expected world) pair, each step "
              "compared with a twin system on which the operation never ran",
@@ -698,7 +710,12 @@ def run(ctx):
     )
     ctx.assumptions += [
         "single-threaded: an external ending (kill / watchdog / shutdown) reaches a running one-shot operation only from "
-        "inside one of its callbacks; between API calls only in the manual driver",
+        "inside one of its callbacks or from inside a lock step (try_acquire / release) of one of its registered "
+        "ResourceLock objects; between API calls only in the manual driver (whose lock steps are not choice points: "
+        "the caller drives them and has a between-steps choice point after each)",
+        "an ending issued inside try_acquire right after the lock was granted cannot know that grant (the controller "
+        "books it when try_acquire returns): that one lock is judged at the return of the driver call only; a "
+        "kill / maintenance / shutdown call issued when the operation had already been ended is not an ending of it",
         "resources that are not requested are held by a priority-0 holder and preemptable (the most fragile setting)",
         "quick tier: request lists up to renaming of resources, at most 1 injected fault/ending per run; thorough: all "
         "lists, at most 2",
